@@ -50,14 +50,16 @@ func genC10(tier string, rng *RNG, w *CaseWriter) {
 						if crit && (inv == "before" || inv == "equal") {
 							continue
 						}
-						alpha = append(alpha, entrySpec{match, reason, rt, inv, crit})
+						alpha = append(alpha, entrySpec{Match: match, Reason: reason, RTime: rt, Inv: inv, Crit: crit})
 					}
 				}
 			}
 		}
 	}
 	w.Extra["reduced_alphabet"] = len(alpha)
-	sts := []time.Time{{}, stRef}
+	// signing times: none, the reference (invalidity dates sit 1 s before / at / 1 s after it), and two with a
+	// fractional part on either side of it (the comparison with the invalidity date is exact, not rounded)
+	sts := []time.Time{{}, stRef, stRef.Add(600 * time.Millisecond), stRef.Add(-400 * time.Millisecond)}
 	// all single entries (full reasons 0..10) in base or delta
 	for _, st := range sts {
 		emit(nil, nil, false, st, false, "empty")
@@ -65,11 +67,20 @@ func genC10(tier string, rng *RNG, w *CaseWriter) {
 		for reason := 0; reason <= 10; reason++ {
 			for _, inv := range []string{"none", "before", "equal", "after", "malformed", "trailing"} {
 				for _, crit := range []bool{false, true} {
-					e := entrySpec{true, reason, 2, inv, crit}
+					e := entrySpec{Match: true, Reason: reason, RTime: 2, Inv: inv, Crit: crit}
 					emit([]entrySpec{e}, nil, false, st, false, "single-base")
 					emit(nil, []entrySpec{e}, true, st, reason%3 == 0, "single-delta")
 				}
 			}
+		}
+	}
+	// entries for the negated serial number (and other numbers sharing digits) never matter
+	for _, st := range sts[:2] {
+		for _, reason := range []int{0, 1, 6, 8} {
+			neg := entrySpec{Match: false, Reason: reason, RTime: 2, Inv: "none", Neg: true}
+			emit([]entrySpec{neg}, nil, false, st, false, "negated-serial")
+			emit(nil, []entrySpec{neg}, true, st, true, "negated-serial")
+			emit([]entrySpec{neg, {Match: true, Reason: 8, RTime: 1, Inv: "none"}}, nil, false, st, false, "negated-serial")
 		}
 	}
 	// all ordered pairs over the reduced alphabet, split base/delta in every way
